@@ -1867,7 +1867,8 @@ impl Parser {
         let pos = self.expect(Keyword::Defer)?;
         match self.expression()? {
             ast::Expression::Call(call) => {
-                self.expect(Operator::SemiColon)?;
+                // { defer f() } with no semicolon
+                self.skipped(Operator::SemiColon)?;
                 Ok(ast::DeferStmt { pos, call })
             }
             _ => Err(self.else_error_at(pos + 2, "must be invoked function after go")),
